@@ -152,7 +152,7 @@ package boltz
 //@   ensures[logged] pdN == old(pdN) + 1 && pdWho == sto(old(pdWho), old(pdN), ref(self)) && pdId == sto(old(pdId), old(pdN), id)
 //@   ensures[a-delete-flow] result0 != nil ==> fresh(result0) && istype(result0, *EntityChangeState) && as(result0, *EntityChangeState).Ctx == ctx && as(result0, *EntityChangeState).ChangeType == EntityDeleted && as(result0, *EntityChangeState).EntityId == id
 //@ func (*BaseStore).processDeleteConstraints
-//@   props C07 C08 C03 C05 C06
+//@   props C07 C08 C03 C05 C06 C15
 //@   errflow
 //@   nosafety
 //@   modifies *, ocCnt, ocFn, ocRecv, cxN, cxWho, cxPhase, cxCtx, cxPersist, edDone
